@@ -288,6 +288,27 @@ func (a *A) filtersFirst() {
 				if cal != nil && (cal == add || cal == newAcc) {
 					accesses = append(accesses, in)
 				}
+				// an accessor of the pool called on the same receiver: it looks the map up (and may fill it)
+				if cal != nil && cal.Pkg == a.P.SSAPkg && len(cal.Blocks) > 0 && len(v.Common().Args) > 0 && v.Common().Args[0] == ssa.Value(f.Params[0]) && cal != add {
+					touches := false
+					for _, cb := range cal.Blocks {
+						for _, ci := range cb.Instrs {
+							switch y := ci.(type) {
+							case *ssa.Lookup:
+								if _, ok := a.fieldLoadOf(y.X, "packetPool", "b"); ok {
+									touches = true
+								}
+							case *ssa.MapUpdate:
+								if _, ok := a.fieldLoadOf(y.Map, "packetPool", "b"); ok {
+									touches = true
+								}
+							}
+						}
+					}
+					if touches {
+						accesses = append(accesses, in)
+					}
+				}
 				if isBuiltin(v.Common(), "delete") && len(v.Common().Args) > 0 {
 					if _, ok := a.fieldLoadOf(v.Common().Args[0], "packetPool", "b"); ok {
 						accesses = append(accesses, in)
